@@ -427,8 +427,10 @@ type res struct {
 }
 
 type outcome struct {
-	openErr bool
-	results []res
+	openErr    bool
+	results    []res
+	sections   int // SectionEndCallback calls
+	sectionIfs int
 }
 
 var allocSample = []metrics.Sample{{Name: "/gc/heap/allocs:bytes"}}
@@ -458,7 +460,18 @@ type raise struct {
 	to uint32
 }
 
-func readAllHostile(c *sim.Ctx, what int, s *disk.Stream, zero bool, present int, declared uint64, mixed bool, precise bool, rs raise) (out outcome, suspect bool) {
+// ngKnobs are the less common ways of using the pcapng reader: the remaining
+// reader options, a SkipSection call between two reads, and the accessors for
+// what the file said about itself (all of them have to be as safe on hostile
+// input as the read calls).
+type ngKnobs struct {
+	errMismatch bool // NgReaderOptions.ErrorOnMismatchingLinkType
+	callback    bool // NgReaderOptions.SectionEndCallback set
+	skipAt      int  // call index in front of which SkipSection is called (-1: never)
+	accessors   bool // Interface(i), Name(i), SectionInfo, LinkType, Resolution after every call
+}
+
+func readAllHostile(c *sim.Ctx, what int, s *disk.Stream, zero bool, present int, declared uint64, mixed bool, precise bool, rs raise, nk ngKnobs) (out outcome, suspect bool) {
 	budget := uint64(1<<20) + 4*(uint64(present)+declared)
 	var r rdr
 	var err error
@@ -474,7 +487,14 @@ func readAllHostile(c *sim.Ctx, what int, s *disk.Stream, zero bool, present int
 		r = x
 	case 1:
 		var x *pcapgo.NgReader
-		x, err = pcapgo.NewNgReader(s, pcapgo.NgReaderOptions{WantMixedLinkType: mixed, SkipUnknownVersion: mixed})
+		opt := pcapgo.NgReaderOptions{WantMixedLinkType: mixed, SkipUnknownVersion: mixed, ErrorOnMismatchingLinkType: nk.errMismatch}
+		if nk.callback {
+			opt.SectionEndCallback = func(ifs []pcapgo.NgInterface, si pcapgo.NgSectionInfo) {
+				out.sections++
+				out.sectionIfs += len(ifs)
+			}
+		}
+		x, err = pcapgo.NewNgReader(s, opt)
 		r = x
 	case 2:
 		var x *pcapgo.SnoopReader
@@ -500,6 +520,14 @@ func readAllHostile(c *sim.Ctx, what int, s *disk.Stream, zero bool, present int
 			x.SetSnaplen(rs.to)
 			budget = uint64(1<<20) + 4*(uint64(present)+uint64(rs.to))
 		}
+		if ng, ok := r.(*pcapgo.NgReader); ok && calls == nk.skipAt {
+			// the rest of the section is of no interest: go on with the next one
+			e := ng.SkipSection()
+			out.results = append(out.results, res{ok: e == nil, sum: 0x5C195EC, eofClass: e != nil && eofClass(e)})
+			if e != nil && (eofClass(e) || errors.Is(e, disk.ErrInjected)) {
+				return
+			}
+		}
 		a0 := allocated(precise)
 		if zero {
 			d, ci, err = r.ZeroCopyReadPacketData()
@@ -515,6 +543,18 @@ func readAllHostile(c *sim.Ctx, what int, s *disk.Stream, zero bool, present int
 					budget = uint64(1<<20) + 4*(uint64(present)+declared)
 				}
 			}
+		}
+		if ng, ok := r.(*pcapgo.NgReader); ok && nk.accessors {
+			// (for their reads of the reader's tables; out-of-range indices included)
+			for i := -1; i <= ng.NInterfaces(); i++ {
+				ng.Interface(i)
+			}
+			for i := -1; i <= ng.NNames() && i < 64; i++ {
+				ng.Name(i)
+			}
+			_ = ng.SectionInfo()
+			_ = ng.LinkType()
+			_ = ng.Resolution()
 		}
 		if da := allocated(precise) - a0; da > budget {
 			if !precise {
@@ -547,6 +587,9 @@ func readerName(what int) string { return []string{"Reader", "NgReader", "SnoopR
 func sameOutcome(a, b outcome) (bool, string) {
 	if a.openErr != b.openErr {
 		return false, fmt.Sprintf("constructor error %v vs %v", a.openErr, b.openErr)
+	}
+	if a.sections != b.sections || a.sectionIfs != b.sectionIfs {
+		return false, fmt.Sprintf("section end callback called %d times with %d interfaces in all vs %d times with %d", a.sections, a.sectionIfs, b.sections, b.sectionIfs)
 	}
 	if len(a.results) != len(b.results) {
 		return false, fmt.Sprintf("%d calls vs %d calls", len(a.results), len(b.results))
@@ -670,18 +713,26 @@ func simC15(c *sim.Ctx) {
 		rs = raise{at: c.Draw(5), to: uint32(4096 + c.Draw(60000))}
 		c.Fault("snaplen_raised_between_reads")
 	}
-	c.Ev("input", int64(what), int64(kind), int64(len(data)), b2i(zero), int64(rs.at), int64(rs.to))
+	nk := ngKnobs{skipAt: -1}
+	if what == 1 {
+		nk.errMismatch, nk.callback, nk.accessors = c.Draw(2) == 1, c.Draw(2) == 1, c.Chance(300)
+		if c.Chance(150) {
+			nk.skipAt = c.Draw(4)
+			c.Fault("skip_section_between_reads")
+		}
+	}
+	c.Ev("input", int64(what), int64(kind), int64(len(data)), b2i(zero), int64(rs.at), int64(rs.to), b2i(nk.errMismatch), b2i(nk.callback), int64(nk.skipAt))
 	run := func(s *disk.Stream) (out outcome) {
 		s.OnSpin = func(calls int) {
 			c.Fail("no-hang", "spins-at-eof", readerName(what), "reader called Read %d times after the stream had reported EOF or an error", calls)
 		}
 		cfg := *s
-		out, suspect := readAllHostile(c, what, s, zero, present, declared, mixed, false, rs)
+		out, suspect := readAllHostile(c, what, s, zero, present, declared, mixed, false, rs, nk)
 		if suspect {
 			c.Probe("allocation_rechecked_precisely")
 			again := cfg
 			again.OnSpin = s.OnSpin
-			out, _ = readAllHostile(c, what, &again, zero, present, declared, mixed, true, rs)
+			out, _ = readAllHostile(c, what, &again, zero, present, declared, mixed, true, rs, nk)
 			*s = again
 		}
 		return out
